@@ -75,10 +75,13 @@ def shape(paths, how, k=1):
         return P + P[:1]
     if how == 10:
         return {"__t": [{"__t": P[:k]}, P[k:]]}
+    if how == 11:
+        # a mapping that is not a dict (types.MappingProxyType); API tiers only
+        return {"__m": {"bam": P[:k], "idx": P[k:]}}
     raise ValueError(how)
 
 
-N_SHAPES = 11
+N_SHAPES = 11  # shapes 0..10 are JSON/CLI-safe; 11 is offered explicitly where wanted
 EMPTY_MEMBER_SHAPES = (3, 5, 7, 8, 10)
 
 
